@@ -3,7 +3,7 @@ import json, re
 from .. import core
 from . import stackcommon as sc
 
-EMITS = set("S V Q G A P PM R X E B ST CB TXT RACE".split())
+EMITS = set("S V Q G A P PM R X E B ST CB TXT RACE VR NS".split())
 
 ADV_SETUP = ["wrongcode", "wrongproof", "noproof", "a0", "aN", "a2N", "aempty", "m5first", "start", "m3wrong", "m5zerokey",
              "m5randkey", "badstep", "badmethod", "garbage", "aNforged", "a0forged", "aemptyforged", "wrongcodezero", "m5zeroempty", "m5emptyhkdf"]
@@ -70,17 +70,32 @@ def gen_c01(rng, tier):
     return cases
 
 
+def gen_c01_shared_addr(rng, tier):
+    """implementation side only: an unverified connection and a verified one that the accessory sees under the SAME
+    remote ip:port (the model has no notion of addresses: connections are independent there by construction)"""
+    cases = []
+    for i in range(3 if tier == "quick" else 20):
+        ops = ["N:h", "S:h:c0:ok", "NS:a:b", "V:b:c0:ok", "G:b:2.9"]
+        pool = ["G:a:2.9,4.13", "A:a", "P:a:2.9:true:1", "X:a:accessories:GET", "X:a:characteristics:GET", "X:a:characteristics-put:PUT", "X:a:pairings:POST", "X:a:resource:POST"]
+        rng.shuffle(pool)
+        ops += pool[:rng.randrange(2, 6)] + ["CB", "ST"]
+        mk(cases, "shared-addr", ops, {"adv": ["a"]})
+    return cases
+
+
 def oracle_c01(c, obs):
     if obs.startswith("harness-panic") or obs.startswith("setup-error") or obs.startswith("DRIVER") or obs == "NO-OUTPUT":
         return "harness failure: " + obs[:100]
     pairs, ok = pair_tokens(c["line"], obs)
     adv = set(c["meta"].get("adv", []))
+    if "NS=unsupported" in obs:
+        return None        # this host cannot open two connections from one local ip:port
     for op, tok in pairs:
         p = op.split(":")
-        if len(p) > 1 and p[1] in adv:
+        if len(p) > 1 and p[1] in adv and p[0] != "NS":
             if "canary=1" in tok:
                 return "a response to the unverified connection %s discloses attribute values (%s -> %s)" % (p[1], op, tok[:80])
-            if p[0] == "X" and p[2] != "identify" and not (tok.startswith("X=470") or tok.startswith("X=closed")):
+            if p[0] == "X" and p[2] != "identify" and not (tok.startswith("X=470") or tok.startswith("X=closed") or tok.startswith("X=noconn")):
                 return "unverified connection %s was not refused on a protected endpoint: %s -> %s" % (p[1], op, tok[:80])
             if p[0] in ("G", "A", "P") and not (tok.startswith(p[0] + "=470") or tok.endswith("=closed") or tok.endswith("=noconn")):
                 return "unverified connection %s was served: %s -> %s" % (p[1], op, tok[:80])
@@ -268,6 +283,9 @@ def gen_c03(rng, tier):
         ops = ["N:h", "S:h:%s:ok" % a, "ST", "N:v", "V:v:%s:ok" % a, "G:v:2.9", "N:x", "V:x:%s:unknowntail" % a, "Q:x",
                "N:y", "V:y:%s:ok" % b, "Q:y", "N:z", "V:z:%s:unknown" % a, "Q:z"]
         mk(cases, "longname", ops)
+    # a recorded genuine exchange replayed on hundreds of new connections: the accessory's exchange key never repeats
+    for i in range(1 if tier == "quick" else 4):
+        mk(cases, "replay-later", ["N:h", "S:h:c0:ok", "VR:c0:%d" % (300 if tier == "quick" else 700), "N:v", "V:v:c0:ok", "G:v:2.9"])
     for _ in range(10 if tier == "quick" else 150):
         # a controller entity added WITHOUT a public key must never verify anybody; abandoned starts must not wedge a connection
         ops = ["N:h", "S:h:c0:ok", "V:h:c0:ok", "R:h:nokey:addnokey", "N:v"]
@@ -312,6 +330,8 @@ def oracle_c03(c, obs):
                 return "pair-verify %s was not answered with an error: %s" % (op, tok)
             if p[3] == "finish" and "closed" in last:
                 return "pair-verify %s was answered by dropping the connection: %s" % (op, tok)
+        if p[0] == "VR" and tok != "VR=fresh":
+            return "a recorded pair-verify exchange replayed on a later connection: %s (the accessory's exchange key repeated; no valid signature over THIS exchange was presented)" % tok[3:]
         if p[0] == "Q" and p[1] not in genuine and not tok.startswith("Q=refused470"):
             return "connection %s never presented a valid signature but is no longer answered in plaintext / was served: %s" % (p[1], tok)
         if p[0] == "G" and p[1] not in genuine and p[1] != "h" and not (tok.startswith("G=470") or tok.endswith("closed") or tok.endswith("noconn")):
